@@ -57,7 +57,45 @@ CLAIM = dict(
           "(coverage.helper_deviations, tags helper_deviation_*) without changing the verdict, unless "
           "VERIF_C04_HELPERS=strict is set (then it counts as a correspondence mismatch). The theorems about these "
           "helpers describe the code only while helper_deviations is empty. utils.intersect, Routes.is_link/opposite (used "
-          "by the minimisers) stay under the ordinary correspondence."),
+          "by the minimisers) stay under the ordinary correspondence. "
+          "HARDENING (what is validated by which stream; verdicts only from the Lean oracle / model comparison): "
+          "[1 argument kinds, case option ak, about half of the cases of every stream] route/sources handed to the "
+          "constructor as set, frozenset, list with a duplicate, tuple, one-shot iterator; entries of a user subclass of "
+          "RoutingTableEntry; the table as list, tuple, list subclass, one-shot generator (ordered_covering and "
+          "ordered_covering.minimise only: the other callees take len()/index the documented list); targets as int, "
+          "bool, numpy.int64, 0, None and 2**31-1..2**100; minimise_tables chips as (x, y) of ints, huge ints, bools, "
+          "numpy ints, strings containing % and {}, a namedtuple; routing_tables / target_lengths as dict, OrderedDict, "
+          "defaultdict (targets: None for unlisted chips), dict subclass; methods as tuple, list, one-shot iterator "
+          "(minimise_table only: minimise_tables re-uses the argument per chip), functools.partial, lambda, callable "
+          "object. Not varied: keys and masks stay Python ints below 2**32 (the property is about 32-bit keys; rig never "
+          "passes numpy keys); chip identifiers that are not pairs (the documented form is (x, y), and "
+          "MinimisationFailedError.__str__ unpacks it); Routes members as plain ints (Routes.opposite/is_link are "
+          "documented attributes). [2 optional parameters] every optional parameter of the functions in scope takes its "
+          "default and a non-default value, positionally and by keyword: remove_default_routes.minimise("
+          "check_for_aliases) - False only on orthogonal tables, its documented domain; ordered_covering(aliases, "
+          "no_raise); minimise_table(methods); minimise_tables(methods); expand_entries(ignore_xs), "
+          "expand_entry(ignore_xs), RoutingTableEntry(sources). [3 scale, a handful per run, CPU limit raised] tables of "
+          "257, 1025 (thorough also 1024) entries through all minimisers, 5000 and 1500 entries through default-route "
+          "removal, one minimise_tables call over 2000 (thorough 65537) chips; nothing in scope recurses deeper than the "
+          "32 levels of expand_entry and nothing is counted in 8 or 16 bits. [4 histories] history / related-history "
+          "streams incl. the same call repeated and twins in both orders; instead of re-importing rig at the start of a "
+          "history the first finding of each class is re-run in a fresh interpreter and extended until it reproduces "
+          "there. [5 caller keeps and edits, stream rb] programs of 2-5 calls on live objects: the passed list / dict / "
+          "target dict / alias dict and the returned list / dict / alias dict are edited in place (append, delete, "
+          "replace an entry, add/discard a source in an entry's set, add/delete chips, change targets) and passed again, "
+          "the same call is repeated, every result is kept and re-read after the last call (a kept result that changed "
+          "without the caller touching it - object identity is tracked - is judged by the oracle against the input it was "
+          "computed from); expand_entries generators are advanced alternately and abandoned (helper, no verdict). Whether "
+          "a call modifies the list or alias dict it was given is counted only (tags rb_input_modified_by_call, "
+          "rb_passed_aliases_modified_by_call): the property does not speak about it. [6 faults] the only fallible "
+          "collaborators are caller-supplied methods: a method raising MinimisationFailedError or RuntimeError at every "
+          "position, then the same objects are used again; expected outcomes are computed from the model of the remaining "
+          "methods. [7 configuration] not applicable: the minimisers have no environment; per-chip targets differ inside "
+          "one call. [8 non-termination] every implementation call runs under common.cpu_limit (5 s, 1 s after six hangs, "
+          "300 s for the scale cases); a call that does not return is the finding did-not-return (the model terminates: "
+          "orderedCovering_total, minimiseTable_total). The oracle enumerates at most 16 varying key bits; tag "
+          "oracle_not_decided (0 on the unchanged tree) counts results outside that range, which are then judged by model "
+          "comparison, length and target only."),
     technique="Lean 4 theorems over a hand-written model + differential correspondence + Lean spec as oracle")
 
 THEOREMS = ["removeDefault_equiv", "removeDefault_length", "removeDefault_target", "inv_routeEquiv", "inv_init",
@@ -94,7 +132,7 @@ RULE = ("tables of 0-40 entries over 3-10 active key bits embedded at random pos
         "_refine_upcheck/_refine_downcheck/_Merge.apply; thorough adds every Good table of <= 4 entries over 2 bits "
         "and <= 2 entries over 3 bits; a case "
         "is non-trivial when ordered covering applied at least one merge or default-route removal dropped an entry; "
-        "distinct = distinct canonical JSON of (table, target); HISTORY stream (run first, 150/3000 histories): 2-4 "
+        "distinct = distinct canonical JSON of (table, target); HISTORY stream (run first, 150/2500 histories): 2-4 "
         "minimisation calls in one process (per call: remove_default_routes, ordered_covering, ordered_covering.minimise, "
         "minimise_table, or minimise_tables over 2-4 chips in one call) where every later table is derived from an "
         "earlier call's result - it contains, as original entries with a different route, key/masks produced by that "
@@ -102,7 +140,7 @@ RULE = ("tables of 0-40 entries over 3-10 active key bits embedded at random pos
         "merge overlaps it, preferably on keys outside the earlier aliases; each call must equal the pure model on its "
         "own table and pass the RouteEquiv oracle; a finding carries the whole history and is re-run in a fresh "
         "interpreter (extended to all earlier histories if it is not self-contained); the main stream then runs after "
-        "the histories in the same process; RELATED-tables streams: 300/6000 minimise_tables calls over 2-8 chips whose "
+        "the histories in the same process; RELATED-tables streams: 300/4000 minimise_tables calls over 2-8 chips whose "
         "tables are related - same keys/masks/routes/order with re-drawn sources (default-routable, unknown, other link, "
         "several, core), identical up to one entry, identical up to order, identical, or the per-chip tables produced by "
         "the library's routing_tree_to_tables from 2-5 small trees (straight runs with a branch, ending on cores; "
@@ -111,7 +149,11 @@ RULE = ("tables of 0-40 entries over 3-10 active key bits embedded at random pos
         "RouteEquiv oracle against THAT chip's own table, compared with the per-chip pure model, length and target "
         "checked; 60/1500 histories of 2-5 calls (remove_default_routes, ordered_covering, ordered_covering.minimise, "
         "minimise_table, sometimes one minimise_tables) on such a related family in one process; a finding of a history "
-        "whose failing call reproduces alone in a fresh interpreter is reported as that single (whole) call; deepening "
+        "whose failing call reproduces alone in a fresh interpreter is reported as that single (whole) call; hardening: about half of all cases carry "
+        "random argument kinds / calling conventions (option ak, see CLAIM.note), targets include 2**31-1..2**100 (3%), "
+        "orthogonal tables also go through remove_default_routes(check_for_aliases=False); stream rb (250/5000 programs "
+        "of 2-5 calls on live objects edited in place between calls, results kept and re-read, caller-supplied failing "
+        "methods); 5 (thorough 6) scale cases; deepening "
         "streams: user alias dictionaries that satisfy "
         "AliasCover by construction (own key/mask or all halves after fixing 1-2 X positions, plus extras and unused keys; "
         "the precondition is decided in Lean for every dictionary of both alias streams); 500/6000 pairs (a, b) of tables "
@@ -152,6 +194,104 @@ def to_impl(table):
     return [RoutingTableEntry(set_of(r, False), k, m, set_of(s, True)) for r, k, m, s in table]
 
 
+# ---- ARGUMENT KINDS (case option "ak"): the same values in every kind the API accepts.  Absent = the plain kinds.
+BIG_TARGETS = [2 ** 31 - 1, 2 ** 31, 2 ** 32, 2 ** 53 + 1, 2 ** 63, 2 ** 64, 2 ** 100]
+_SUBCLASSES = {}
+
+
+def _entry_subclass():
+    if "e" not in _SUBCLASSES:
+        from rig.routing_table import RoutingTableEntry
+
+        class TaggedEntry(RoutingTableEntry):
+            """a user's subclass of RoutingTableEntry"""
+            __slots__ = ()
+
+            def describe(self):
+                return "tagged"
+
+        class TableList(list):
+            """a user's list subclass"""
+
+        class TableDict(dict):
+            """a user's dict subclass"""
+        _SUBCLASSES.update(e=TaggedEntry, l=TableList, d=TableDict)
+    return _SUBCLASSES
+
+
+def mk_entries(table, ak):
+    """entry objects; ak["ek"]: how route / sources collections are handed to the constructor, or a subclass"""
+    from rig.routing_table import RoutingTableEntry
+    ek = (ak or {}).get("ek", "set")
+    out = []
+    for i, (r, k, m, s) in enumerate(table):
+        kind = ek if ek != "mixed" else ["set", "frozenset", "list", "tuple", "gen", "subclass"][(i + k) % 6]
+        rs, ss = set_of(r, False), set_of(s, True)
+        cls = RoutingTableEntry
+        if kind == "subclass":
+            cls = _entry_subclass()["e"]
+        elif kind == "frozenset":
+            rs, ss = frozenset(rs), frozenset(ss)
+        elif kind == "list":
+            rs, ss = sorted(rs) + sorted(rs)[:1], sorted(ss, key=lambda x: -1 if x is None else x)    # a duplicate too
+        elif kind == "tuple":
+            rs, ss = tuple(rs), tuple(ss)
+        elif kind == "gen":
+            rs, ss = iter(list(rs)), (x for x in list(ss))
+        out.append(cls(rs, k, m, ss))
+    return out
+
+
+def mk_table(table, ak, gen_ok=False):
+    """the table argument; ak["tk"]: list / tuple / list subclass / one-shot generator (where the callee sorts it)"""
+    es = mk_entries(table, ak)
+    tk = (ak or {}).get("tk", "list")
+    if tk == "tuple":
+        return tuple(es)
+    if tk == "listsub":
+        return _entry_subclass()["l"](es)
+    if tk == "gen" and gen_ok:
+        return (e for e in es)
+    return es
+
+
+def mk_target(t, ak):
+    """ak["tgk"]: int / bool (0, 1) / numpy integer"""
+    tgk = (ak or {}).get("tgk", "int")
+    if t is None:
+        return None
+    if tgk == "bool" and t in (0, 1):
+        return bool(t)
+    if tgk == "numpy" and t < 2 ** 62:
+        import numpy
+        return numpy.int64(t)
+    return t
+
+
+def _norm_int(x):
+    try:
+        import numpy
+        if isinstance(x, (bool, numpy.integer)):
+            return int(x)
+    except ImportError:
+        if isinstance(x, bool):
+            return int(x)
+    return x
+
+
+def gen_ak(rng):
+    """random argument kinds / calling conventions for one case"""
+    return {"ek": rng.choice(["set", "frozenset", "list", "tuple", "gen", "subclass", "mixed", "mixed"]),
+            "tk": rng.choice(["list", "list", "tuple", "listsub", "gen"]),
+            "tgk": rng.choice(["int", "int", "bool", "numpy"]),
+            "kw": rng.choice(["pos", "kw", "mixed"]),
+            "mk": rng.choice(["tuple", "list", "iter", "partial", "lambda", "object"]),
+            "ck": rng.choice(["xy", "xy", "big", "named", "str", "numpy", "bool"]),
+            "dk": rng.choice(["dict", "ordered", "default", "subclass"]),
+            "tdk": rng.choice(["dict", "ordered", "default", "subclass"]),
+            "mdef": rng.random() < 0.5}
+
+
 def from_impl(table):
     return [[bits_of(e.route), e.key, e.mask, bits_of(e.sources)] for e in table]
 
@@ -171,6 +311,8 @@ def generality(k, m):
 
 
 _HANGS = [0]
+_LAST_CHIP = [None]
+_CPU_LIMIT = [None]      # set by the scale stream: its calls legitimately take longer
 
 
 def call(f):
@@ -181,15 +323,19 @@ def call(f):
         # every call of the model terminates (theorems *_total); the tables here are small (a call takes
         # milliseconds): a call still running after 5 s of CPU time is reported as not having returned
         # (1 s once that has happened 6 times in this run)
-        with common.cpu_limit(5 if _HANGS[0] < 6 else 1):
+        with common.cpu_limit(_CPU_LIMIT[0] or (5 if _HANGS[0] < 6 else 1)):
             return f()
     except common.ImplHang as e:
         _HANGS[0] += 1
         return {"exc": "DidNotReturn", "where": str(e)}
     except MinimisationFailedError as e:
-        d = {"err": "MinimisationFailed", "target": e.target_length, "final": e.final_length}
+        d = {"err": "MinimisationFailed", "target": _norm_int(e.target_length), "final": _norm_int(e.final_length)}
+        _LAST_CHIP[0] = e.chip
         if e.chip is not None:
-            d["chip"] = e.chip[0]
+            try:
+                d["chip"] = _norm_int(e.chip[0])
+            except Exception:
+                d["chip"] = None
         return d
     except (ImportError, SyntaxError):
         raise
@@ -308,6 +454,8 @@ def gen_table(rng, kind=None, max_n=40):
 
 def gen_target(rng, n):
     r = rng.random()
+    if r < 0.03:
+        return rng.choice(BIG_TARGETS)          # an unbounded quantity: far beyond any table
     if r < 0.35:
         return None
     if r < 0.42:
@@ -446,36 +594,107 @@ def gen_case(rng, kind=None):
     elif kind != "any" and rng.random() < 0.3:
         c["aliases"] = gen_valid_aliases(rng, table)
         c["aliases_stream"] = "valid"
+    if rng.random() < 0.5:
+        c["ak"] = gen_ak(rng)
+    if kind == "orth" and rng.random() < 0.5:
+        c["nocheck"] = True       # remove_default_routes(check_for_aliases=False): documented for alias-free tables
     return c
 
 
 # --------------------------------------------------------------------------
 # evaluation
-def impl_methods(names):
+class _CallableMethod(object):
+    """a user's callable object used as a minimisation method"""
+
+    def __init__(self, f):
+        self.f = f
+
+    def __call__(self, table, target_length):
+        return self.f(table, target_length)
+
+
+def impl_methods(names, ak=None, single=False):
+    """ak["mk"]: the methods as tuple / list / one-shot iterator (single-table front end only: minimise_tables re-uses
+    the argument for every chip) / functools.partial / lambda / callable objects wrapping the library's minimisers"""
+    import functools
     from rig.routing_table import remove_default_routes, ordered_covering
     d = {"rd": remove_default_routes.minimise, "oc": ordered_covering.minimise}
-    return [d[n] for n in names]
+    fs = [d[n] for n in names]
+    mk = (ak or {}).get("mk", "list")
+    if mk == "partial":
+        fs = [functools.partial(f) for f in fs]
+    elif mk == "lambda":
+        fs = [(lambda f: (lambda table, target_length: f(table, target_length)))(f) for f in fs]
+    elif mk == "object":
+        fs = [_CallableMethod(f) for f in fs]
+    if mk == "tuple":
+        return tuple(fs)
+    if mk == "iter" and single:
+        return iter(fs)
+    return fs
 
 
 def run_impl(c):
     """all implementation calls of one case -> dict name -> protocol result"""
     from rig.routing_table import remove_default_routes as rdm, ordered_covering as ocm, minimise as mm
     T, t, t2 = c["table"], c["target"], c["target2"]
+    ak = c.get("ak")
+    kw = (ak or {}).get("kw", "pos")
     out = {}
     light = c.get("light")
+
+    def rd(target):
+        if kw == "kw":
+            return rdm.minimise(table=mk_table(T, ak), target_length=mk_target(target, ak), check_for_aliases=True)
+        if kw == "mixed":
+            return rdm.minimise(mk_table(T, ak), mk_target(target, ak), check_for_aliases=True)
+        return rdm.minimise(mk_table(T, ak), mk_target(target, ak))
+
+    def ocmin(target):
+        if kw == "kw":
+            return ocm.minimise(routing_table=mk_table(T, ak, True), target_length=mk_target(target, ak))
+        return ocm.minimise(mk_table(T, ak, True), mk_target(target, ak))
+
+    def mt(target, methods):
+        single = dict(single=True)
+        if methods is None:
+            if kw == "kw":
+                return mm.minimise_table(table=mk_table(T, ak), target_length=mk_target(target, ak))
+            return mm.minimise_table(mk_table(T, ak), mk_target(target, ak))
+        if kw == "kw":
+            return mm.minimise_table(table=mk_table(T, ak), target_length=mk_target(target, ak),
+                                     methods=impl_methods(methods, ak, **single))
+        if kw == "mixed":
+            return mm.minimise_table(mk_table(T, ak), mk_target(target, ak), methods=impl_methods(methods, ak, **single))
+        return mm.minimise_table(mk_table(T, ak), mk_target(target, ak), impl_methods(methods, ak, **single))
     if not light:
-        out["rd"] = call(lambda: {"ok": from_impl(rdm.minimise(to_impl(T), t))})
-    out["rd_none"] = call(lambda: {"ok": from_impl(rdm.minimise(to_impl(T), None))})
+        out["rd"] = call(lambda: {"ok": from_impl(rd(t))})
+    out["rd_none"] = call(lambda: {"ok": from_impl(rd(None))})
+    if c.get("nocheck"):
+        # check_for_aliases=False (documented for tables without aliased entries)
+        out["rd_nocheck"] = call(lambda: {"ok": from_impl(
+            rdm.minimise(mk_table(T, ak), mk_target(t, ak), False) if kw == "pos" else
+            rdm.minimise(mk_table(T, ak), mk_target(t, ak), check_for_aliases=False))})
     if c["kind"] == "any":
         return out
 
     def oc(table, target, aliases, no_raise):
-        r = ocm.ordered_covering(to_impl(table), target, aliases_to_impl(aliases), no_raise)
+        tb, tg, al = mk_table(table, ak, True), mk_target(target, ak), aliases_to_impl(aliases)
+        if kw == "kw":
+            r = ocm.ordered_covering(routing_table=tb, target_length=tg, aliases=al, no_raise=no_raise)
+        elif kw == "mixed":
+            r = (ocm.ordered_covering(tb, tg, no_raise=no_raise) if not aliases and no_raise else
+                 ocm.ordered_covering(tb, tg, aliases=al) if not no_raise else
+                 ocm.ordered_covering(tb, tg, al, no_raise=no_raise))
+        elif not aliases and not no_raise and ak is not None:
+            r = ocm.ordered_covering(tb, tg)                      # both optional parameters at their defaults
+        else:
+            r = ocm.ordered_covering(tb, tg, al, no_raise)
         return {"ok": {"table": from_impl(r[0]), "aliases": canon_aliases(r[1])}}
     if light:
         out["oc_none"] = call(lambda: oc(T, None, [], False))
-        out["ocmin_none"] = call(lambda: {"ok": from_impl(ocm.minimise(to_impl(T), None))})
-        out["mt_default"] = call(lambda: {"ok": from_impl(mm.minimise_table(to_impl(T), t2))})
+        out["ocmin_none"] = call(lambda: {"ok": from_impl(ocmin(None))})
+        out["mt_default"] = call(lambda: {"ok": from_impl(mt(t2, None))})
         return out
     out["oc"] = call(lambda: oc(T, t, [], False))
     out["oc_nr"] = call(lambda: oc(T, t2, [], True))
@@ -486,16 +705,22 @@ def run_impl(c):
         # documented `aliases` parameter: correspondence only (no claim is made for arbitrary dictionaries)
         out["oc_al"] = call(lambda: oc(T, t2, c["aliases"], True))
     out["oc_none"] = call(lambda: oc(T, None, [], False))
-    out["ocmin"] = call(lambda: {"ok": from_impl(ocm.minimise(to_impl(T), t))})
-    out["ocmin_none"] = call(lambda: {"ok": from_impl(ocm.minimise(to_impl(T), None))})
-    out["mt"] = call(lambda: {"ok": from_impl(mm.minimise_table(to_impl(T), t, impl_methods(c["methods"])))})
-    out["mt_default"] = call(lambda: {"ok": from_impl(mm.minimise_table(to_impl(T), t2))})
+    out["ocmin"] = call(lambda: {"ok": from_impl(ocmin(t))})
+    out["ocmin_none"] = call(lambda: {"ok": from_impl(ocmin(None))})
+    out["mt"] = call(lambda: {"ok": from_impl(mt(t, c["methods"]))})
+    out["mt_default"] = call(lambda: {"ok": from_impl(mt(t2, None))})
     if c.get("internals"):
         out["best"] = call(lambda: {"ok": merge_json(ocm._get_best_merge(
             sorted(to_impl(T), key=lambda e: ocm._get_generality(e.key, e.mask)), {}))})
         srt = sorted(to_impl(T), key=lambda e: ocm._get_generality(e.key, e.mask))
         out["ins"] = [call(lambda: ocm._get_insertion_index(srt, g)) for g in range(0, 34)]
     return out
+
+
+def exc_key(res):
+    """finding class of an undocumented outcome: a call that did not return (every model call terminates:
+    theorems orderedCovering_total / minimiseTable_total) or an exception other than MinimisationFailedError"""
+    return "did-not-return" if res.get("exc") == "DidNotReturn" else "undocumented-exception-" + res["exc"]
 
 
 def merge_json(m):
@@ -509,6 +734,8 @@ def model_reqs(c, impl):
     S = "c04"
     light = c.get("light")
     reqs = [("rd_none", {"suite": S, "op": "rd", "table": T, "target": None, "check": True})]
+    if c.get("nocheck"):
+        reqs.append(("rd_nocheck", {"suite": S, "op": "rd", "table": T, "target": t, "check": False}))
     if not light:
         reqs.append(("rd", {"suite": S, "op": "rd", "table": T, "target": t, "check": True}))
     if c["kind"] == "any":
@@ -552,6 +779,10 @@ def out_table(res):
 
 
 def eval_cases(ctx, cases):
+    rbs = [c for c in cases if c["kind"] == "rb"]
+    cases = [c for c in cases if c["kind"] != "rb"]
+    if rbs:
+        eval_rb(ctx, rbs)
     hist = [c for c in cases if c["kind"] == "hist"]
     mts = [c for c in cases if c["kind"] == "mts"]
     uts = [c for c in cases if c["kind"].startswith("u_")]
@@ -593,11 +824,24 @@ def _eval_plain(ctx, cases, impls=None, ctxs=None):
         judge(ctxs[ci] if ctxs else ctx, c, impl, model, orc)
 
 
+def tag_ak(ctx, c, fields):
+    ak = c.get("ak")
+    if ak:
+        ctx.tag(*["ak_%s_%s" % (f, ak.get(f)) for f in fields])
+    else:
+        ctx.tag("ak_plain")
+
+
 def judge(ctx, c, impl, model, orc):
     T, n = c["table"], len(c["table"])
     desc = dict(c)
     ctx.traces += 1
     ctx.tag("kind_" + c["kind"], "n_%s" % ("0" if n == 0 else "1-4" if n < 5 else "5-16" if n <= 16 else "17-40"))
+    tag_ak(ctx, c, ("ek", "tk", "tgk", "kw", "mk"))
+    if any(isinstance(x, int) and x >= 2 ** 31 - 1 for x in (c.get("target"), c.get("target2"))):
+        ctx.tag("target_big")
+    if c.get("nocheck"):
+        ctx.tag("rd_check_for_aliases_False")
     # ---- correspondence
     for name, res in impl.items():
         if name == "ins":
@@ -609,7 +853,7 @@ def judge(ctx, c, impl, model, orc):
         if m != res:
             ctx.mismatch("c04." + name, "impl=%r model=%r" % (res, m), desc)
     # ---- property oracle
-    targets = {"oc_al": None, "rd": c["target"], "oc": c["target"], "oc_nr": None, "oc2": None, "ocmin": c["target"],
+    targets = {"rd_nocheck": c["target"], "oc_al": None, "rd": c["target"], "oc": c["target"], "oc_nr": None, "oc2": None, "ocmin": c["target"],
                "mt": c["target"], "mt_default": c["target2"], "rd_none": None, "oc_none": None, "ocmin_none": None}
     # sizes reached by the unbounded runs (for the "best size reached" clause)
     reach = {}
@@ -624,7 +868,7 @@ def judge(ctx, c, impl, model, orc):
     for name, res in impl.items():
         if name == "oc_al":
             if "exc" in res:
-                ctx.violation("undocumented-exception-" + res["exc"], "ordered_covering with aliases raised %s at %s"
+                ctx.violation(exc_key(res), "ordered_covering with aliases raised %s at %s"
                               % (res["exc"], res.get("where")), desc)
                 continue
             ok = orc.get("__aliasok") or {}
@@ -644,7 +888,7 @@ def judge(ctx, c, impl, model, orc):
         t = targets[name]
         if "exc" in res:
             ctx.tag("exc_" + res["exc"])
-            ctx.violation("undocumented-exception-" + res["exc"],
+            ctx.violation(exc_key(res),
                           "%s raised %s at %s (only MinimisationFailedError is documented) on a %d-entry table, target=%r"
                           % (name, res["exc"], res.get("where"), n, t), desc)
             continue
@@ -661,8 +905,11 @@ def judge(ctx, c, impl, model, orc):
         ctx.tag(name + "_ok")
         o = orc.get(name)
         if o is None or "equiv" not in o:
-            raise RuntimeError("oracle failed: %r" % (o,))
-        if not o["equiv"]:
+            # more key bits than the oracle enumerates (never with the generated inputs on the unchanged code: the tag
+            # stays at 0 there); happens when a broken implementation returns a table unrelated to its input, or a later
+            # table of a history was derived from such a result: judged by model comparison, length and target only
+            ctx.tag("oracle_not_decided")
+        elif not o["equiv"]:
             ctx.violation("route-changed", "%s: key %#010x matched by the input table is routed differently by the output "
                           "(input %d entries, output %d entries)" % (name, o["key"], n, len(tb)), desc)
         if len(tb) > n:
@@ -746,7 +993,10 @@ def gen_mts(rng):
     elif mode == "none":
         for ch in chips:
             ch["target"] = None
-    return {"kind": "mts", "chips": chips, "mode": mode, "methods": rng.choice(METHOD_LISTS)}
+    c = {"kind": "mts", "chips": chips, "mode": mode, "methods": rng.choice(METHOD_LISTS)}
+    if rng.random() < 0.5:
+        c["ak"] = gen_ak(rng)
+    return c
 
 
 # ---- RELATED tables: the chips of one minimise_tables call (and the calls of one process) usually carry nearly the same
@@ -928,7 +1178,10 @@ def gen_mts_related(rng):
         t = rng.randint(0, 1 + max(len(ch["table"]) for ch in chips))
         for ch in chips:
             ch["target"] = t if same and rng.random() < 0.8 else gen_target(rng, len(ch["table"]))
-    return {"kind": "mts", "related": how, "chips": chips, "mode": mode, "methods": rng.choice(METHOD_LISTS)}
+    c = {"kind": "mts", "related": how, "chips": chips, "mode": mode, "methods": rng.choice(METHOD_LISTS)}
+    if rng.random() < 0.5:
+        c["ak"] = gen_ak(rng)
+    return c
 
 
 def gen_related_history(rng):
@@ -957,18 +1210,90 @@ def gen_related_history(rng):
         steps.insert(rng.randrange(len(steps) + 1),
                      {"kind": "mts", "mode": "none", "methods": rng.choice(METHOD_LISTS),
                       "chips": [{"chip": i, "table": t, "target": None} for i, t in enumerate(fam)]})
+    r = rng.random()
+    if r < 0.25:
+        steps = steps + [dict(st) for st in reversed(steps)]          # twins in both orders: A B ... B A
+    elif r < 0.5:
+        k = rng.randrange(len(steps))
+        steps = steps[:k + 1] + [dict(steps[k])] + steps[k + 1:] + [dict(steps[k])]      # the same call repeated
+    steps = steps[:8]
     return {"kind": "hist", "related": True, "steps": steps}, impl_steps(steps)
+
+
+def mk_chip_key(i, ck):
+    """the documented (x, y) chip identifier in several kinds"""
+    if ck == "big":
+        return (2 ** 64 + i, -i)
+    if ck == "named":
+        import collections
+        if "xy" not in _SUBCLASSES:
+            _SUBCLASSES["xy"] = collections.namedtuple("Chip", "x y")
+        return _SUBCLASSES["xy"](i, 0)
+    if ck == "str":
+        return ("x%d %%s {}" % i, "{0} %d")
+    if ck == "numpy":
+        import numpy
+        return (numpy.int64(i), numpy.uint8(0))
+    if ck == "bool":
+        return (i, False)
+    return (i, 0)
+
+
+def mk_dict(items, dk, default=None):
+    import collections
+    if dk == "ordered":
+        return collections.OrderedDict(items)
+    if dk == "default":
+        d = collections.defaultdict(default or list)
+        d.update(items)
+        return d
+    if dk == "subclass":
+        return _entry_subclass()["d"](items)
+    return dict(items)
 
 
 def mts_impl(c):
     from rig.routing_table import minimise as mm
-    tables = {(ch["chip"], 0): to_impl(ch["table"]) for ch in c["chips"]}
+    ak = c.get("ak")
+    ck, kw = (ak or {}).get("ck", "xy"), (ak or {}).get("kw", "pos")
+    keys = [mk_chip_key(ch["chip"], ck) for ch in c["chips"]]
+    index = {id(k): ch["chip"] for k, ch in zip(keys, c["chips"])}
+    tables = mk_dict([(k, mk_table(ch["table"], ak)) for k, ch in zip(keys, c["chips"])], (ak or {}).get("dk", "dict"))
     if c["mode"] == "dict":
-        lengths = {(ch["chip"], 0): ch["target"] for ch in c["chips"]}
+        items = [(k, mk_target(ch["target"], ak)) for k, ch in zip(keys, c["chips"])]
+        tdk = (ak or {}).get("tdk", "dict")
+        if tdk == "default":
+            # a defaultdict giving None for the chips it does not list
+            lengths = mk_dict([(k, v) for k, v in items if v is not None], "default", lambda: None)
+        else:
+            lengths = mk_dict(items, tdk)
     else:
-        lengths = c["chips"][0]["target"]
-    return call(lambda: {"ok": [[k[0], from_impl(v)] for k, v in
-                                mm.minimise_tables(tables, lengths, impl_methods(c["methods"])).items()]})
+        lengths = mk_target(c["chips"][0]["target"], ak)
+    methods = impl_methods(c["methods"], ak)
+
+    def chip_of(k):
+        if id(k) in index:
+            return index[id(k)]
+        for kk, ch in zip(keys, c["chips"]):
+            if kk == k:
+                return ch["chip"]
+        return None
+
+    def go():
+        if (ak or {}).get("mdef") and c["methods"] == ["rd", "oc"]:
+            r = (mm.minimise_tables(routing_tables=tables, target_lengths=lengths) if kw == "kw" else
+                 mm.minimise_tables(tables, lengths))                    # `methods` left at its default
+        elif kw == "kw":
+            r = mm.minimise_tables(routing_tables=tables, target_lengths=lengths, methods=methods)
+        elif kw == "mixed":
+            r = mm.minimise_tables(tables, lengths, methods=methods)
+        else:
+            r = mm.minimise_tables(tables, lengths, methods)
+        return {"ok": [[chip_of(k), from_impl(v)] for k, v in r.items()]}
+    res = call(go)
+    if "err" in res and "chip" in res:
+        res["chip"] = chip_of(_LAST_CHIP[0])
+    return res
 
 
 def eval_mts(ctx, cases, impls=None, ctxs=None):
@@ -994,12 +1319,15 @@ def eval_mts(ctx, cases, impls=None, ctxs=None):
         ctx = ctxs[ci] if ctxs else ctx0
         ctx.traces += 1
         ctx.tag("kind_mts")
+        tag_ak(ctx, c, ("ek", "tk", "tgk", "kw", "mk", "ck", "dk", "tdk"))
+        if (c.get("ak") or {}).get("mdef") and c["methods"] == ["rd", "oc"]:
+            ctx.tag("mts_methods_default")
         if c.get("related"):
             ctx.tag("mts_related_" + c["related"], "mts_related_chips_%s" % ("2-3" if len(c["chips"]) < 4 else "4-8"))
         if models[ci] != impl:
             ctx.mismatch("c04.mts", "impl=%r model=%r" % (impl, models[ci]), c)
         if "exc" in impl:
-            ctx.violation("undocumented-exception-" + impl["exc"], "minimise_tables raised %s at %s" % (impl["exc"], impl.get("where")), c)
+            ctx.violation(exc_key(impl), "minimise_tables raised %s at %s" % (impl["exc"], impl.get("where")), c)
         elif "err" in impl:
             ctx.tag("mts_minfailed")
             ch = [x for x in c["chips"] if x["chip"] == impl.get("chip")]
@@ -1011,15 +1339,18 @@ def eval_mts(ctx, cases, impls=None, ctxs=None):
             for x in c["chips"]:
                 o = orcs[(ci, x["chip"])]
                 tb = got.get(x["chip"], [])
-                if not o.get("equiv", False):
+                if "equiv" not in o:
+                    ctx.tag("oracle_not_decided")
+                elif not o["equiv"]:
                     ctx.violation("route-changed", "minimise_tables chip %d: key %#010x is routed differently (%d -> %d entries)"
                                   % (x["chip"], o.get("key", 0), len(x["table"]), len(tb)), c)
                 if len(tb) > len(x["table"]):
                     ctx.violation("longer", "minimise_tables chip %d: %d -> %d entries" % (x["chip"], len(x["table"]), len(tb)), c)
                 if x["target"] is not None and len(tb) > x["target"]:
                     ctx.violation("target-missed", "minimise_tables chip %d: %d entries for target %d" % (x["chip"], len(tb), x["target"]), c)
+        got_all = dict((k, v) for k, v in impl["ok"]) if "ok" in impl else {}
         ctx.case({"mts": [[x["table"], x["target"]] for x in c["chips"]]}, "ok" in impl and any(
-            len(dict((k, v) for k, v in impl["ok"]).get(x["chip"], [])) < len(x["table"]) for x in c["chips"]))
+            len(got_all.get(x["chip"], [])) < len(x["table"]) for x in c["chips"]))
 
 
 # --------------------------------------------------------------------------
@@ -1114,6 +1445,8 @@ def plain_step(rng, table):
         c["light"] = True
     else:
         c["internals"] = False
+    if rng.random() < 0.4:
+        c["ak"] = gen_ak(rng)
     return c
 
 
@@ -1190,10 +1523,11 @@ class _HistCtx(object):
 
     def violation(self, key, what, case):
         self._ctx.violation(key, "history of %d calls in one process, call %d: %s" % (
-            len(self._hist["steps"]), self._si + 1, what), self._case())
+            len(self._hist.get("steps") or self._hist.get("ops") or []), self._si + 1, what), self._case())
 
     def mismatch(self, suite, detail, case):
-        self._ctx.mismatch(suite, "history call %d/%d: %s" % (self._si + 1, len(self._hist["steps"]), detail), self._case())
+        self._ctx.mismatch(suite, "history call %d/%d: %s" % (
+            self._si + 1, len(self._hist.get("steps") or self._hist.get("ops") or []), detail), self._case())
 
 
 def eval_hist(ctx, hists, impls=None):
@@ -1285,6 +1619,464 @@ def confirm_findings(ctx):
         except Exception:
             pass
     ctx.concrete[:0] = front
+
+
+# --------------------------------------------------------------------------
+# SCALE: a handful of cases far beyond the usual size (the router holds 1024 entries; machines have tens of thousands of
+# chips).  Same judgement as every other case; the per-call CPU limit is raised for them.
+def gen_scale_cases(rng, quick):
+    def dense(nb, n, routes, xshare=0.0):
+        pos = sorted(rng.sample(range(32), nb))
+        base_mask = M32 & ~sum(1 << b for b in pos)
+        base_key = rng.getrandbits(32) & base_mask
+        out, seen = [], set()
+        for v in rng.sample(range(1 << nb), min(n, 1 << nb)):
+            key, mask = base_key, M32
+            for j, b in enumerate(pos):
+                if (v >> j) & 1:
+                    key |= 1 << b
+            if rng.random() < xshare:
+                b = rng.choice(pos)
+                mask &= ~(1 << b)
+                key &= ~(1 << b)
+            if (key, mask) in seen:
+                continue
+            seen.add((key, mask))
+            r = rng.choice(routes)
+            links = [i for i in range(6) if r == 1 << i]
+            src = 1 << ((links[0] + 3) % 6) if links and rng.random() < 0.3 else 1 << NONE_BIT
+            out.append([r, key, mask, src])
+        out.sort(key=lambda e: generality(e[1], e[2]))
+        return out
+    cases = []
+    sizes = [(9, 257, [1, 8], 0.0), (11, 1025, [2, 16], 0.2)] + ([] if quick else [(10, 1024, [1, 4, 1 << 7], 0.0)])
+    for nb, n, routes, xs in sizes:
+        cases.append({"kind": "sorted", "table": dense(nb, n, routes, xs), "target": None,
+                      "target2": rng.choice([None, 1024, 2 ** 64]), "methods": ["rd", "oc"], "light": True, "scale": True})
+    big = dense(13, 5000, [1, 8], 0.0)
+    cases.append({"kind": "any", "table": big, "target": rng.choice([0, 4999, 2 ** 100]), "target2": None, "methods": [],
+                  "scale": True})
+    two = dense(11, 1500, [1, 8], 0.5)
+    cases.append({"kind": "any", "table": two, "target": 1500, "target2": None, "methods": [], "scale": True})
+    nchips = 2000 if quick else 65537
+    protos = [dense(3, rng.randint(1, 3), [1, 8, 1 << 9], 0.0) for _ in range(7)]
+    chips = [{"chip": i, "table": vary_sources(rng, protos[i % 7]) if i % 3 == 0 else protos[i % 7], "target": 2 ** 32}
+             for i in range(nchips)]
+    cases.append({"kind": "mts", "chips": chips, "mode": "int", "methods": ["rd", "oc"], "scale": True,
+                  "ak": {"dk": "default", "ck": "xy", "kw": "kw"}})
+    return cases
+
+
+# --------------------------------------------------------------------------
+# THE CALLER KEEPS AND EDITS (case kind "rb"): a short program of calls on LIVE objects.  The caller edits in place the
+# lists / dicts / sets it passed and the ones it was handed back and calls again with the very same objects, keeps
+# every result and looks at it again at the end, repeats calls, and supplies its own (sometimes failing) methods.
+# Before every call the arguments are snapshotted; the model is asked about the snapshot, so each call must equal the
+# pure model on what was actually passed and pass the RouteEquiv oracle; a kept result that changed without the
+# caller touching it is judged by the oracle against the input it was computed from.
+def is_good(table):
+    gens = [generality(e[1], e[2]) for e in table]
+    if all(gens[i] <= gens[i + 1] for i in range(len(gens) - 1)):
+        return True
+    return all(not km_intersect((table[i][1], table[i][2]), (table[j][1], table[j][2]))
+               for i in range(len(table)) for j in range(i + 1, len(table)))
+
+
+def rb_edit_table(obj, edits):
+    """edit a live list of entries in place; returns True if some entry's `sources` set was edited"""
+    from rig.routing_table import RoutingTableEntry
+    touched_sets = False
+    for ed in edits:
+        if ed[0] == "append":
+            # another entry with the key/mask of the last one (keeps a generality-sorted table sorted)
+            k, m = (obj[-1].key, obj[-1].mask) if obj else (0, M32)
+            obj.append(RoutingTableEntry(set_of(ed[1], False), k, m, {None}))
+        elif ed[0] == "del" and obj:
+            del obj[ed[1] % len(obj)]
+        elif ed[0] == "set_route" and obj:
+            i = ed[1] % len(obj)
+            e = obj[i]
+            obj[i] = RoutingTableEntry(set_of(ed[2], False), e.key, e.mask, set(e.sources))
+        elif ed[0] == "src_add" and obj:
+            e = obj[ed[1] % len(obj)]
+            if isinstance(e.sources, set):
+                e.sources.add(None if ed[2] == NONE_BIT else set_of(1 << ed[2], False).pop())
+                touched_sets = True
+        elif ed[0] == "src_discard" and obj:
+            e = obj[ed[1] % len(obj)]
+            if isinstance(e.sources, set) and len(e.sources) > 1:
+                e.sources.discard(sorted(e.sources, key=lambda x: -1 if x is None else x)[ed[2] % len(e.sources)])
+                touched_sets = True
+    return touched_sets
+
+
+class _Faulty(object):
+    """a caller-supplied minimisation method that fails"""
+
+    def __init__(self, spec):
+        self.spec = spec
+
+    def __call__(self, table, target_length):
+        from rig.routing_table import MinimisationFailedError
+        if self.spec["kind"] == "raise":
+            raise RuntimeError("the caller's method failed")
+        raise MinimisationFailedError(target_length, self.spec["final"])
+
+
+def run_rb(c):
+    """execute the program on the implementation; -> list of observations (all JSON)"""
+    from rig.routing_table import remove_default_routes as rdm, ordered_covering as ocm, minimise as mm
+    live, obs, taint_all_from = [], [], None
+
+    def holders(x):
+        """earlier calls that passed or were handed back the object x (directly or as a value of a dict)"""
+        out = []
+        for k, L in enumerate(live):
+            for o2 in (L.get("passed"), L.get("returned")):
+                if o2 is x or (isinstance(o2, dict) and any(v is x for v in o2.values())):
+                    out.append(k)
+        return out
+    for oi, op in enumerate(c["ops"]):
+        f, src = op["f"], op["src"]
+        L = {"passed": None, "returned": None, "aliases_passed": None, "aliases_returned": None}
+        o = {"f": f, "edited": []}
+        if f == "mts":
+            if "new" in src:
+                chips = src["new"]
+                keys = [(ch["chip"], 0) for ch in chips]
+                tables = dict((k, to_impl(ch["table"])) for k, ch in zip(keys, chips))
+                lengths = dict((k, ch["target"]) for k, ch in zip(keys, chips)) if op["mode"] == "dict" else op.get("target")
+            else:
+                j = src["passed"] if "passed" in src else src["returned"]
+                prev = live[j]
+                if "returned" in src:
+                    tables, lengths = prev["returned"], prev["lengths"]
+                    if not isinstance(tables, dict):
+                        tables, lengths = prev["passed"], prev["lengths"]
+                else:
+                    tables, lengths = prev["passed"], prev["lengths"]
+                o["edited"] += holders(tables) if src.get("edits") else []
+                for ed in src.get("edits", []):
+                    ks = list(tables.keys())
+                    if ed[0] == "chip_del" and len(ks) > 1:
+                        k = ks[ed[1] % len(ks)]
+                        del tables[k]
+                    elif ed[0] == "chip_add":
+                        k = (1000 + oi * 10 + ed[1], 0)
+                        tables[k] = to_impl(ed[2])
+                        if isinstance(lengths, dict):
+                            lengths[k] = ed[3]
+                    elif ed[0] == "tbl" and ks:
+                        k = ks[ed[1] % len(ks)]
+                        if isinstance(tables[k], list):
+                            o["edited"] += holders(tables[k])
+                            if rb_edit_table(tables[k], [ed[2]]):
+                                taint_all_from = oi
+                    elif ed[0] == "target_set" and isinstance(lengths, dict) and ks:
+                        lengths[ks[ed[1] % len(ks)]] = ed[2]
+                    elif ed[0] == "target_all":
+                        if isinstance(lengths, dict):
+                            for k in list(lengths):
+                                lengths[k] = ed[1]
+                        else:
+                            lengths = ed[1]
+                if isinstance(lengths, dict):
+                    for k in tables:
+                        lengths.setdefault(k, None)
+            L["passed"], L["lengths"] = tables, lengths
+            ks = list(tables.keys())
+            snap = [{"chip": n, "table": from_impl(tables[k]),
+                     "target": lengths[k] if isinstance(lengths, dict) else lengths} for n, k in enumerate(ks)]
+            o["chips"], o["mode"], o["methods"] = snap, "dict", op["methods"]
+
+            def go():
+                r = mm.minimise_tables(tables, lengths, impl_methods(op["methods"]))
+                L["returned"] = r
+                return {"ok": [[ks.index(k), from_impl(v)] for k, v in r.items()]}
+            res = call(go)
+            if "err" in res and "chip" in res:
+                res["chip"] = ks.index(_LAST_CHIP[0]) if _LAST_CHIP[0] in ks else None
+            o["res"] = res
+            o["good"] = all(is_good(ch["table"]) for ch in snap)
+            o["after"] = [from_impl(tables[k]) for k in ks] if all(k in tables for k in ks) else None
+        else:
+            if "new" in src:
+                table = to_impl(src["new"])
+            else:
+                j = src["passed"] if "passed" in src else src["returned"]
+                table = live[j]["passed" if "passed" in src else "returned"]
+                if not isinstance(table, list):
+                    table = live[j]["passed"]
+                if not isinstance(table, list):
+                    table = to_impl([])
+                if src.get("edits"):
+                    o["edited"] += holders(table)
+                if rb_edit_table(table, src.get("edits", [])):
+                    taint_all_from = oi
+            L["passed"] = table
+            snap = from_impl(table)
+            o["table"], o["target"], o["methods"] = snap, op.get("target"), op.get("methods")
+            good = is_good(snap) and all(e[3] for e in snap)
+            o["good"] = good
+            if not good and f != "rd":
+                f = o["f"] = "rd"          # outside the domain claimed for ordered covering: default-route removal only
+            t = op.get("target")
+            if f == "rd":
+                o["res"] = call(lambda: (L.__setitem__("returned", rdm.minimise(table, t)), {"ok": from_impl(L["returned"])})[1])
+            elif f == "ocmin":
+                o["res"] = call(lambda: (L.__setitem__("returned", ocm.minimise(table, t)), {"ok": from_impl(L["returned"])})[1])
+            elif f == "oc":
+                al_spec = op.get("aliases", "fresh")
+                if al_spec == "fresh":
+                    al = {}
+                else:
+                    al = live[al_spec["op"]][("aliases_" + al_spec["which"])] or {}
+                L["aliases_passed"] = al
+                o["aliases"] = canon_aliases(al)
+                o["no_raise"] = bool(op.get("no_raise")) or bool(o["aliases"])
+
+                def go():
+                    r = ocm.ordered_covering(table, t, al, o["no_raise"])
+                    L["returned"], L["aliases_returned"] = r[0], r[1]
+                    return {"ok": {"table": from_impl(r[0]), "aliases": canon_aliases(r[1])}}
+                o["res"] = call(go)
+                o["aliases_after"] = canon_aliases(al)
+            else:
+                ms = impl_methods(op["methods"])
+                cb = op.get("callback")
+                if cb:
+                    ms.insert(cb["pos"] % (len(ms) + 1), _Faulty(cb))
+                    o["callback"] = dict(cb, pos=cb["pos"] % (len(op["methods"]) + 1))
+                o["res"] = call(lambda: (L.__setitem__("returned", mm.minimise_table(table, t, ms)), {"ok": from_impl(L["returned"])})[1])
+            o["after"] = from_impl(table)
+        o["tainted_from"] = taint_all_from
+        live.append(L)
+        obs.append(o)
+    # the caller looks at everything it kept once more
+    for o, L in zip(obs, live):
+        r = L.get("returned")
+        if r is None:
+            o["kept"] = None
+        elif isinstance(r, dict):
+            ks = list(L["passed"].keys())
+            try:
+                o["kept"] = {"ok": [[ks.index(k) if k in ks else -1, from_impl(v)] for k, v in r.items()]}
+            except Exception as e:
+                o["kept"] = {"exc": type(e).__name__}
+        else:
+            o["kept"] = {"ok": from_impl(r)}
+    return obs
+
+
+def gen_rb(rng):
+    kind, fam = related_family(rng, 3)
+    fam = [t for t in fam if is_good(t)] or [[]]
+    ops = []
+    n = rng.choice([2, 3, 3, 4, 5])
+
+    def edits(table_len):
+        out = []
+        for _ in range(rng.randint(1, 2)):
+            r = rng.random()
+            if r < 0.25:
+                out.append(["append", rng.choice([1, 2, 4, 1 << rng.randrange(24)])])
+            elif r < 0.45:
+                out.append(["del", rng.randrange(8)])
+            elif r < 0.65:
+                out.append(["set_route", rng.randrange(8), 1 << rng.randrange(6)])
+            elif r < 0.85:
+                out.append(["src_add", rng.randrange(8), rng.choice([NONE_BIT] + list(range(6)))])
+            else:
+                out.append(["src_discard", rng.randrange(8), rng.randrange(3)])
+        return out
+    for i in range(n):
+        prev_tbl = [j for j, o in enumerate(ops) if o["f"] != "mts"]
+        prev_mts = [j for j, o in enumerate(ops) if o["f"] == "mts"]
+        f = rng.choice(["rd", "oc", "ocmin", "mt", "mt", "mts"])
+        op = {"f": f, "methods": rng.choice(METHOD_LISTS)}
+        if f == "mts":
+            if prev_mts and rng.random() < 0.7:
+                j = rng.choice(prev_mts)
+                eds = []
+                for _ in range(rng.randint(0, 2)):
+                    r = rng.random()
+                    if r < 0.2:
+                        eds.append(["chip_del", rng.randrange(8)])
+                    elif r < 0.4:
+                        eds.append(["chip_add", len(eds), rng.choice(fam), gen_target(rng, 4)])
+                    elif r < 0.7:
+                        eds.append(["tbl", rng.randrange(8), edits(0)[0]])
+                    elif r < 0.85:
+                        eds.append(["target_set", rng.randrange(8), gen_target(rng, 4)])
+                    else:
+                        eds.append(["target_all", rng.choice([None, None, 0, 2, 2 ** 64])])
+                op["src"] = {rng.choice(["passed", "passed", "returned"]): j, "edits": eds}
+                op["mode"] = "dict"
+            else:
+                chips = [{"chip": k, "table": rng.choice(fam), "target": None} for k in range(rng.randint(1, 4))]
+                op["mode"] = rng.choice(["dict", "none", "int"])
+                op["target"] = None
+                if op["mode"] == "dict":
+                    for ch in chips:
+                        ch["target"] = gen_target(rng, len(ch["table"]))
+                elif op["mode"] == "int":
+                    op["target"] = rng.randint(0, 6)
+                    for ch in chips:
+                        ch["target"] = op["target"]
+                op["src"] = {"new": chips}
+        else:
+            if prev_tbl and rng.random() < 0.75:
+                j = rng.choice(prev_tbl)
+                which = rng.choice(["passed", "passed", "returned"])
+                op["src"] = {which: j, "edits": edits(0) if rng.random() < 0.8 else []}     # no edit = the same call again
+            else:
+                op["src"] = {"new": rng.choice(fam)}
+            op["target"] = gen_target(rng, 5)
+            if f == "oc":
+                op["no_raise"] = rng.random() < 0.5
+                prev_oc = [j for j, o in enumerate(ops) if o["f"] == "oc"]
+                if prev_oc and rng.random() < 0.5:
+                    op["aliases"] = {"op": rng.choice(prev_oc), "which": rng.choice(["passed", "returned"])}
+            if f == "mt" and rng.random() < 0.4 and op["target"] is not None:
+                op["callback"] = {"kind": rng.choice(["raise", "fail_mf"]), "pos": rng.randrange(4),
+                                  "final": rng.randint(0, 12)}
+            elif f == "mt" and rng.random() < 0.15:
+                op["callback"] = {"kind": "raise", "pos": rng.randrange(4), "final": 0}
+        ops.append(op)
+    return {"kind": "rb", "ops": ops}
+
+
+def eval_rb(ctx, cases, observations=None):
+    if observations is None:
+        observations = [run_rb(c) for c in cases]
+    S = "c04"
+    reqs, idx = [], []
+
+    def ask(ci, oi, name, rq):
+        reqs.append(rq)
+        idx.append((ci, oi, name))
+    for ci, (c, obs) in enumerate(zip(cases, observations)):
+        for oi, o in enumerate(obs):
+            if o["f"] == "mts":
+                ask(ci, oi, "m", {"suite": S, "op": "mts", "methods": o["methods"], "chips": o["chips"]})
+                for which in ("res", "kept"):
+                    r = o.get(which)
+                    if r and "ok" in r:
+                        got = dict((k, v) for k, v in r["ok"])
+                        for ch in o["chips"]:
+                            ask(ci, oi, ("e", which, ch["chip"]), {"suite": S, "op": "equiv", "a": ch["table"],
+                                                                 "b": got.get(ch["chip"], [])})
+                continue
+            T, t = o["table"], o["target"]
+            if o["f"] == "rd":
+                ask(ci, oi, "m", {"suite": S, "op": "rd", "table": T, "target": t, "check": True})
+            elif o["f"] == "ocmin":
+                ask(ci, oi, "m", {"suite": S, "op": "ocmin", "table": T, "target": t})
+            elif o["f"] == "oc":
+                ask(ci, oi, "m", {"suite": S, "op": "oc", "table": T, "target": t, "aliases": o["aliases"],
+                                  "no_raise": o["no_raise"]})
+                if o["aliases"]:
+                    ask(ci, oi, "aliasok", {"suite": "c04u", "op": "aliasok", "table": T, "aliases": o["aliases"]})
+            else:
+                cb = o.get("callback")
+                if cb:
+                    ask(ci, oi, "m_prefix", {"suite": S, "op": "mt", "table": T, "target": t,
+                                             "methods": o["methods"][:max(0, cb["pos"])]})
+                ask(ci, oi, "m", {"suite": S, "op": "mt", "table": T, "target": t, "methods": o["methods"]})
+            for which in ("res", "kept"):
+                tb = out_table(o.get(which) or {})
+                if tb is not None:
+                    ask(ci, oi, ("e", which), {"suite": S, "op": "equiv", "a": T, "b": tb})
+    rep = {}
+    for key, r in zip(idx, ctx.lean(reqs)):
+        rep[key] = r
+    mts_batch = []
+    for ci, (c, obs) in enumerate(zip(cases, observations)):
+        ctx.tag("kind_rb")
+        nontriv = False
+        for oi, o in enumerate(obs):
+            hc = _HistCtx(ctx, {"kind": "rb", "ops": c["ops"]}, oi)
+            op = c["ops"][oi]
+            for k in ("passed", "returned"):
+                if k in op["src"]:
+                    ctx.tag("rb_reuse_%s_%s" % (k, "edited" if op["src"].get("edits") else "same_call_again"))
+            if o.get("after") is not None and o["f"] != "mts" and o["after"] != o["table"]:
+                ctx.tag("rb_input_modified_by_call")          # not demanded by the property: counted only
+            if o.get("aliases_after") is not None and o["aliases_after"] != o["aliases"]:
+                ctx.tag("rb_passed_aliases_modified_by_call")
+            model = rep.get((ci, oi, "m"))
+            if o["f"] == "mts":
+                mc = {"kind": "mts", "chips": o["chips"], "mode": "dict", "methods": o["methods"]}
+                if o["good"]:
+                    mts_batch.append((mc, o["res"], hc))
+                elif model != o["res"] and "exc" not in o["res"]:
+                    ctx.tag("rb_mts_outside_domain")
+                kept_ok = True
+            else:
+                T, t, res = o["table"], o["target"], o["res"]
+                name = {"rd": "rd", "ocmin": "ocmin", "mt": "mt"}.get(o["f"]) or (
+                    "oc_al" if o["aliases"] else "oc_nr" if o["no_raise"] else "oc")
+                pc = {"kind": "sorted" if o["good"] else "any", "table": T, "target": t, "target2": t,
+                      "methods": o["methods"] or []}
+                cb = o.get("callback")
+                if cb:
+                    ctx.tag("rb_callback_" + cb["kind"])
+                    if cb["kind"] == "raise":
+                        pre = rep.get((ci, oi, "m_prefix"))
+                        exp = pre if (t is not None and pre and "ok" in pre) else {"exc": "RuntimeError"}
+                    else:
+                        exp = model
+                        if exp and "err" in exp:
+                            exp = dict(exp, final=min(exp["final"], cb["final"]))
+                    if "exc" in exp or "err" in exp:
+                        if {k: v for k, v in res.items() if k != "where"} != exp:
+                            hc.mismatch("c04.rb-callback", "a caller-supplied failing method: impl=%r expected=%r" % (res, exp), None)
+                        continue
+                    model = exp
+                if name == "oc_al":
+                    pc["aliases"] = o["aliases"]
+                orc = {name: rep.get((ci, oi, ("e", "res")))}
+                if name == "oc_al":
+                    orc["__aliasok"] = rep.get((ci, oi, "aliasok"))
+                if name in ("oc_nr", "oc_al") and t is not None and "ok" in res and not cb:
+                    pass
+                judge(hc, pc, {name: res}, {name: model}, orc)
+                if "ok" in res and len(out_table(res)) < len(T):
+                    nontriv = True
+            # (c) the kept result, looked at again after all later calls
+            kept, res = o.get("kept"), o["res"]
+            later = obs[oi + 1:]
+            tainted = any(oi in x["edited"] for x in later) or any(
+                x["tainted_from"] is not None and x["tainted_from"] > oi for x in later[-1:])
+            if kept is not None and "ok" in res and not tainted:
+                then = out_table(res) if o["f"] != "mts" else res["ok"]
+                now = out_table(kept) if o["f"] != "mts" else kept.get("ok")
+                if now != then:
+                    ctx.tag("rb_kept_result_changed")
+                    bad = None
+                    if o["f"] == "mts":
+                        for ch in o["chips"]:
+                            e = rep.get((ci, oi, ("e", "kept", ch["chip"])))
+                            if e and e.get("equiv") is False:
+                                bad = e
+                    else:
+                        e = rep.get((ci, oi, ("e", "kept")))
+                        if e and e.get("equiv") is False:
+                            bad = e
+                    if bad is not None and o["good"]:
+                        hc.violation("route-changed", "the table returned by this call changed AFTER it was returned (the "
+                                     "caller did not touch it) and now routes key %#010x differently from the table it was "
+                                     "computed from" % bad.get("key", 0), None)
+                    else:
+                        hc.mismatch("c04.rb-kept-result", "a returned table changed after it was returned although the caller "
+                                    "did not touch it: then %r now %r" % (then, now), None)
+                else:
+                    ctx.tag("rb_kept_result_unchanged")
+            elif tainted:
+                ctx.tag("rb_kept_result_edited_by_caller")
+        ctx.case({"rb": c["ops"]}, nontriv)
+    if mts_batch:
+        eval_mts(ctx, [m for m, _, _ in mts_batch], [r for _, r, _ in mts_batch], [h for _, _, h in mts_batch])
 
 
 # --------------------------------------------------------------------------
@@ -1466,6 +2258,19 @@ def _expand(a, ignore):
         return from_impl(list(utils.expand_entries(to_impl(a), ignore)))
 
 
+def _expand_lazy(a, b, ignore):
+    import warnings
+    from rig.routing_table import utils
+    with warnings.catch_warnings():
+        warnings.simplefilter("ignore")
+        g1, g2, out = utils.expand_entries(to_impl(a), ignore), utils.expand_entries(to_impl(b), None), []
+        for i, e in enumerate(g1):
+            out.append(e)
+            if i % 2 == 0:
+                next(g2, None)
+        return from_impl(out)
+
+
 def with_full_sources(b):
     return [[e[0], e[1], e[2], FULL_SOURCES] for e in b]
 
@@ -1524,6 +2329,15 @@ def eval_utils(ctx, cases):
         if ok_ex:
             impl["expand"] = call(lambda: _expand(a, ig))
             ask(ci, "expand", {"suite": S, "op": "expand", "table": a, "ignore": ig})
+            # consumed lazily: two generators advanced alternately, the second abandoned half-way
+            lazy = call(lambda: _expand_lazy(a, b, ig))
+            if lazy != impl["expand"]:
+                helper_dev(ctx, "c04u.expand-lazy", "expand_entries consumed alternately with another generator gives %r, "
+                           "consumed at once %r" % (lazy, impl["expand"]), dict(c))
+            ctx.tag("expand_entries_lazy_alternating")
+            if a and expansion_size(a[:1], 0) <= 64:
+                impl["expand_entry_default"] = call(lambda: from_impl(list(utils.expand_entry(to_impl(a[:1])[0]))))
+                ask(ci, "expand_entry_default", {"suite": S, "op": "expand", "table": a[:1], "ignore": 0})
         impl["common_a"] = call(lambda: utils.get_common_xs(to_impl(a)))
         ask(ci, "common_a", {"suite": S, "op": "commonxs", "table": a})
         impl["common_b"] = call(lambda: utils.get_common_xs(to_impl(b)))
@@ -1791,11 +2605,18 @@ def run(ctx):
     # HISTORY stream first (process state is still clean, so a finding replays from its own history); the main stream
     # below then runs thousands of unrelated tables AFTER these histories (stale state may only bite later)
     del HIST_LOG[:]
-    nh = ctx.scale(150, 3000) * (4 if ctx.extended else 1)
+    import time as _time
+    laps, t_last = ctx.extra.setdefault("stream_wall_s", {}), [_time.time()]
+
+    def lap(name):
+        laps[name] = round(laps.get(name, 0) + _time.time() - t_last[0], 1)
+        t_last[0] = _time.time()
+    nh = ctx.scale(150, 2500) * (4 if ctx.extended else 1)
     for i in range(0, nh, 100):
         batch = [gen_history(rng) for _ in range(min(100, nh - i))]
         HIST_LOG.extend(batch)
         eval_hist(ctx, [h for h, _ in batch], [im for _, im in batch])
+    lap("history")
     nr = ctx.scale(60, 1500) * (4 if ctx.extended else 1)
     for i in range(0, nr, 100):
         batch = [gen_related_history(rng) for _ in range(min(100, nr - i))]
@@ -1804,9 +2625,24 @@ def run(ctx):
         eval_hist(ctx, [h for h, _ in batch], [im for _, im in batch])
     cases = [{"kind": "sorted", "table": [], "target": None, "target2": None, "methods": ["rd", "oc"], "internals": True},
              {"kind": "sorted", "table": [], "target": 0, "target2": 0, "methods": ["rd", "oc"], "internals": False}]
+    lap("related_history")
+    # THE CALLER KEEPS AND EDITS: programs of calls on live objects (edited in place between calls, results kept)
+    rbs = [gen_rb(rng) for _ in range(ctx.scale(250, 5000) * (4 if ctx.extended else 1))]
+    for i in range(0, len(rbs), 500):
+        eval_cases(ctx, rbs[i:i + 500])
+    lap("caller_keeps_and_edits")
+    # SCALE: a handful of very large cases
+    _CPU_LIMIT[0] = 300
+    try:
+        for sc in gen_scale_cases(rng, ctx.quick):
+            ctx.tag("scale_" + ("mts_%d_chips" % len(sc["chips"]) if sc["kind"] == "mts" else "%d_entries" % len(sc["table"])))
+            eval_cases(ctx, [sc])
+    finally:
+        _CPU_LIMIT[0] = None
+    lap("scale")
     # minimise_tables over RELATED chips (same keys/masks/routes with other sources, one entry apart, reordered,
     # consecutive chips of routes made by routing_tree_to_tables)
-    cases += [gen_mts_related(rng) for _ in range(ctx.scale(300, 6000) * (4 if ctx.extended else 1))]
+    cases += [gen_mts_related(rng) for _ in range(ctx.scale(300, 4000) * (4 if ctx.extended else 1))]
     for i in range(n):
         r = rng.random()
         if r < 0.08:
@@ -1819,11 +2655,13 @@ def run(ctx):
             cases.append(gen_case(rng))
     for i in range(0, len(cases), 500):
         eval_cases(ctx, cases[i:i + 500])
+    lap("main_and_related_mts")
     # rig/routing_table/utils.py and entries.py (deepening round)
     ucases = doc_examples() + fixed_replays() + [gen_utils_case(rng) for _ in range(ctx.scale(500, 6000) * (4 if ctx.extended else 1))]
     for i in range(0, len(ucases), 500):
         eval_cases(ctx, ucases[i:i + 500])
     eval_routes(ctx)
+    lap("utils_entries")
     if not ctx.quick:
         batch = []
         for c in exhaustive_cases(2, 4):
@@ -1843,12 +2681,16 @@ def run(ctx):
                                          "over 3 key bits, two entry flavours (default-routable E<-W; N with unknown source)")
     for k, v in PROBE.items():
         ctx.tags[k] = ctx.tags.get(k, 0) + v
+    lap("exhaustive")
     shrink_findings(ctx)
     confirm_findings(ctx)
+    lap("shrink_confirm")
 
 
 def replay(ctx, payload):
     ctx.extra["rule"] = RULE
+    if isinstance(payload.get("case"), dict) and payload["case"].get("scale"):
+        _CPU_LIMIT[0] = 300
     eval_cases(ctx, [payload["case"]])
 THEOREMS += ['gen_routes_is_link', 'gen_routes_is_core', 'gen_routes_core_num', 'gen_routes_opposite', 'gen_routes_core']   # translator tie: generated function bodies = model (Props/C04Gen.lean)
 THEOREMS += ['gen_get_common_xs', 'gen_get_insertion_index']   # translator tie, second round (Props/C04Gen.lean)
